@@ -1,3 +1,614 @@
 import KoordVerif.Model.C08
+/-
+C08 — property theorems (DESIGN.md §4 C08).
+ 1. deletePod is the exact inverse of addPod (same metric in force)                  `delete_add_inverse`
+ 2. for EVERY history of events and every node the cached sums equal the from-scratch
+    computation over the node's current report and its currently assigned pods      `cache_eq_rebuild`, `cache_eq_from_report`
+    (order of the pods irrelevant: `scratch_perm`; closed form: `scratch_eq_sum`)
+    — and the one place where this is false on the code as written: a report without UpdateTime
+      keeps the previous report's time                                               `report_without_update_time_counterexample`
+ 3. Filter: pass only if every thresholded resource is within the rounded percentage `filter_pass_within`, `filter_pass_exact`,
+    on the from-scratch estimate of the reached state                                `filter_pass_sound`
+ 4. missing / expired metrics behave as the switch table says                        `filter_no_metric`, `filter_expired_table`, `filter_expired_only_if`
+-/
 namespace KoordVerif.C08
+
+/-! ### vector algebra (no length side conditions: the operations keep the left shape) -/
+
+theorem vadd_nil (a : Vec) : vadd a [] = a := by cases a <;> rfl
+theorem vsub_nil (a : Vec) : vsub a [] = a := by cases a <;> rfl
+
+theorem vsub_vadd_cancel (a b : Vec) : vsub (vadd a b) b = a := by
+  induction a generalizing b with
+  | nil => rfl
+  | cons x xs ih =>
+    cases b with
+    | nil => rfl
+    | cons y ys => simp only [vadd, vsub, ih]; congr 1; omega
+
+theorem vadd_right_comm (a b c : Vec) : vadd (vadd a b) c = vadd (vadd a c) b := by
+  induction a generalizing b c with
+  | nil => rfl
+  | cons x xs ih =>
+    cases b with
+    | nil => simp [vadd_nil]
+    | cons y ys =>
+      cases c with
+      | nil => simp [vadd_nil]
+      | cons z zs => simp only [vadd, ih ys zs]; congr 1; omega
+
+def Sums.add (a b : Sums) : Sums :=
+  ⟨vadd a.prodUsage b.prodUsage, vadd a.nodeDelta b.nodeDelta, vadd a.prodDelta b.prodDelta, vadd a.nodeEst b.nodeEst⟩
+
+def Sums.sub (a b : Sums) : Sums :=
+  ⟨vsub a.prodUsage b.prodUsage, vsub a.nodeDelta b.nodeDelta, vsub a.prodDelta b.prodDelta, vsub a.nodeEst b.nodeEst⟩
+
+theorem Sums.sub_add_cancel (a b : Sums) : (a.add b).sub b = a := by
+  cases a; simp [Sums.add, Sums.sub, vsub_vadd_cancel]
+
+theorem Sums.add_right_comm (a b c : Sums) : (a.add b).add c = (a.add c).add b := by
+  simp only [Sums.add]
+  rw [vadd_right_comm a.prodUsage, vadd_right_comm a.nodeDelta, vadd_right_comm a.prodDelta, vadd_right_comm a.nodeEst]
+
+/-- What one assigned pod contributes to the four sums under the report in force — the statement's
+formula: its reported usage if it is prod on both sides; `max(0, estimate − usage)` when the report
+does not yet reflect it (`shouldEstimate`); its full estimate; and for prod pods the same delta,
+with the full estimate standing in when its usage is not counted as prod. -/
+def contrib (ctx : Ctx) (p : PodInfo) : Sums :=
+  let u := usageOf ctx p.key
+  let activeProd := p.prod && ctx.prodPods.contains p.key
+  let reset := !activeProd && u.isSome
+  { prodUsage := if activeProd then u.getD [] else [],
+    nodeDelta := match p.est with
+      | none => []
+      | some e => if shouldEstimate ctx u p then delta e u else [],
+    nodeEst := match p.est with
+      | none => []
+      | some e => e,
+    prodDelta := match p.est with
+      | none => []
+      | some e =>
+        if !p.prod then [] else
+          if (if reset then true else shouldEstimate ctx u p) then delta e (if reset then none else u) else [] }
+
+theorem addPod_eq (ctx : Ctx) (s : Sums) (p : PodInfo) : addPod ctx s p = s.add (contrib ctx p) := by
+  cases s
+  unfold addPod contrib Sums.add
+  cases p.est <;> simp only [] <;>
+    split <;> (try split) <;> (try split) <;> (try split) <;> simp_all [vadd_nil]
+
+theorem deletePod_eq (ctx : Ctx) (s : Sums) (p : PodInfo) : deletePod ctx s p = s.sub (contrib ctx p) := by
+  cases s
+  unfold deletePod contrib Sums.sub
+  cases p.est <;> simp only [] <;>
+    split <;> (try split) <;> (try split) <;> (try split) <;> simp_all [vsub_nil]
+
+/-! ### 1. add and delete are exact inverses -/
+
+theorem delete_add_inverse (ctx : Ctx) (s : Sums) (p : PodInfo) :
+    deletePod ctx (addPod ctx s p) p = s := by
+  rw [addPod_eq, deletePod_eq, Sums.sub_add_cancel]
+
+/-- `updatePod` followed by the reverse update restores the sums. -/
+theorem update_roundtrip (ctx : Ctx) (s : Sums) (o p : PodInfo) :
+    addPod ctx (deletePod ctx (addPod ctx (deletePod ctx (addPod ctx s o) o) p) p) o = addPod ctx s o := by
+  rw [delete_add_inverse, delete_add_inverse]
+
+/-! ### 2. cache = rebuild -/
+
+theorem foldl_addPod_add (ctx : Ctx) (ps : List PodInfo) (s c : Sums) :
+    ps.foldl (addPod ctx) (s.add c) = (ps.foldl (addPod ctx) s).add c := by
+  induction ps generalizing s with
+  | nil => rfl
+  | cons p ps ih =>
+    simp only [List.foldl_cons, addPod_eq]
+    rw [Sums.add_right_comm, ih]
+
+theorem foldl_addPod_erase (ctx : Ctx) (q : PodInfo → Bool) (ps : List PodInfo) (b : Sums) (o : PodInfo)
+    (h : ps.find? q = some o) :
+    deletePod ctx (ps.foldl (addPod ctx) b) o = (ps.eraseP q).foldl (addPod ctx) b := by
+  induction ps generalizing b with
+  | nil => simp at h
+  | cons p ps ih =>
+    by_cases hq : q p = true
+    · simp only [List.find?_cons, hq] at h
+      cases h
+      simp only [List.eraseP_cons, hq, List.foldl_cons, if_true]
+      rw [addPod_eq, foldl_addPod_add, deletePod_eq, Sums.sub_add_cancel]
+    · simp only [List.find?_cons, hq] at h
+      simp only [List.eraseP_cons, hq, List.foldl_cons]
+      exact ih _ h
+
+theorem eraseP_of_find_none (q : PodInfo → Bool) (ps : List PodInfo) (h : ps.find? q = none) :
+    ps.eraseP q = ps := by
+  induction ps with
+  | nil => rfl
+  | cons p ps ih =>
+    by_cases hq : q p = true
+    · simp [List.find?_cons, hq] at h
+    · simp only [List.find?_cons, hq] at h
+      simp [List.eraseP_cons, hq, ih h]
+
+/-- the closed form of the from-scratch computation: start values + Σ over the assigned pods. -/
+theorem scratch_eq_sum (cfg : Cfg) (m : Metric) (ut : Option Int) (ps : List PodInfo) :
+    scratch cfg m ut ps = ps.foldl (fun s p => s.add (contrib (ctxOf m ut) p)) (baseSums cfg m) := by
+  unfold scratch
+  congr 1
+  funext s p
+  exact addPod_eq _ s p
+
+/-- the from-scratch value does not depend on the order in which the pods are visited
+(Go iterates a map) — nor, therefore, on the order in which they were assigned. -/
+theorem scratch_perm (cfg : Cfg) (m : Metric) (ut : Option Int) (ps qs : List PodInfo) (h : ps.Perm qs) :
+    scratch cfg m ut ps = scratch cfg m ut qs := by
+  unfold scratch
+  generalize baseSums cfg m = b
+  induction h generalizing b with
+  | nil => rfl
+  | cons x _ ih => simp only [List.foldl_cons]; exact ih _
+  | swap x y l => simp only [List.foldl_cons, addPod_eq]; rw [Sums.add_right_comm]
+  | trans _ _ ih1 ih2 => exact (ih1 b).trans (ih2 b)
+
+/-- node-level invariant: whenever a report is in force, the sums are the from-scratch value, and the
+node's `updateTime` is the report's whenever the report carries one. -/
+def Inv (cfg : Cfg) (n : Node) : Prop :=
+  ∀ m, n.metric = some m →
+    n.sums = scratch cfg m n.updateTime n.pods ∧ (m.hasUpd = true → n.updateTime = some m.updT)
+
+theorem inv_empty (cfg : Cfg) : Inv cfg emptyNode := by
+  intro m h; simp [emptyNode] at h
+
+theorem inv_cleanup (cfg : Cfg) (n : Node) (h : Inv cfg n) : Inv cfg n.cleanup := by
+  unfold Node.cleanup; split
+  · exact inv_empty cfg
+  · exact h
+
+theorem inv_addOrUpdatePod (cfg : Cfg) (n : Node) (p : PodInfo) (h : Inv cfg n) :
+    Inv cfg (n.addOrUpdatePod p) := by
+  intro m hm
+  have hm' : n.metric = some m := by simpa [Node.addOrUpdatePod] using hm
+  obtain ⟨hs, hu⟩ := h m hm'
+  refine ⟨?_, by simpa [Node.addOrUpdatePod] using hu⟩
+  simp only [Node.addOrUpdatePod, hm']
+  unfold scratch at hs ⊢
+  rw [List.foldl_append, List.foldl_cons, List.foldl_nil]
+  cases hf : n.pods.find? (isUid p.uid) with
+  | none => simp only []; rw [eraseP_of_find_none _ _ hf, hs]
+  | some o => simp only []; rw [hs, foldl_addPod_erase _ _ _ _ _ hf]
+
+theorem inv_deletePodByUid (cfg : Cfg) (n : Node) (uid : Nat) (h : Inv cfg n) :
+    Inv cfg (n.deletePodByUid uid) := by
+  unfold Node.deletePodByUid
+  apply inv_cleanup
+  intro m hm
+  have hm' : n.metric = some m := hm
+  obtain ⟨hs, hu⟩ := h m hm'
+  refine ⟨?_, hu⟩
+  simp only [hm']
+  unfold scratch at hs ⊢
+  cases hf : n.pods.find? (isUid uid) with
+  | none => simp only []; rw [eraseP_of_find_none _ _ hf, hs]
+  | some o => simp only []; rw [hs, foldl_addPod_erase _ _ _ _ _ hf]
+
+theorem inv_setMetric (cfg : Cfg) (n : Node) (m : Metric) : Inv cfg (n.setMetric cfg m) := by
+  intro m' hm'
+  simp only [Node.setMetric, Option.some.injEq] at hm'
+  subst hm'
+  refine ⟨rfl, ?_⟩
+  intro hu; simp [Node.setMetric, hu]
+
+theorem inv_deleteMetric (cfg : Cfg) (n : Node) : Inv cfg n.deleteMetric := by
+  unfold Node.deleteMetric
+  apply inv_cleanup
+  intro m hm; simp at hm
+
+theorem get_set (c : Cache) (k k' : Nat) (n : Node) :
+    (c.set k n).get k' = if k' = k then n else c.get k' := by
+  unfold Cache.set Cache.get
+  by_cases h : k' = k
+  · subst h; simp [List.find?_cons]
+  · have : (k == k') = false := by simp; omega
+    simp [List.find?_cons, this, h]
+
+def CInv (cfg : Cfg) (c : Cache) : Prop := ∀ k, Inv cfg (c.get k)
+
+theorem cinv_set (cfg : Cfg) (c : Cache) (k : Nat) (n : Node) (hc : CInv cfg c) (hn : Inv cfg n) :
+    CInv cfg (c.set k n) := by
+  intro k'; rw [get_set]; split
+  · exact hn
+  · exact hc k'
+
+theorem cinv_assign (cfg : Cfg) (c : Cache) (node : Nat) (p : PodDesc) (now : Int) (hc : CInv cfg c) :
+    CInv cfg (assign cfg c node p now) := by
+  unfold assign; split
+  · exact hc
+  · exact cinv_set _ _ _ _ hc (inv_addOrUpdatePod _ _ _ (hc node))
+
+theorem cinv_unAssign (cfg : Cfg) (c : Cache) (node uid : Nat) (hc : CInv cfg c) :
+    CInv cfg (unAssign c node uid) := by
+  unfold unAssign; split
+  · exact hc
+  · exact cinv_set _ _ _ _ hc (inv_deletePodByUid _ _ _ (hc node))
+
+theorem cinv_onUpdate (cfg : Cfg) (c : Cache) (o : Nat) (p : PodDesc) (now : Int) (hc : CInv cfg c) :
+    CInv cfg (onUpdate cfg c o p now) := by
+  unfold onUpdate
+  have h1 : CInv cfg (if (o != 0 && o != p.specNode) = true then unAssign c o p.uid else c) := by
+    split
+    · exact cinv_unAssign _ _ _ _ hc
+    · exact hc
+  simp only []
+  split
+  · exact cinv_assign _ _ _ _ _ h1
+  · split
+    · exact cinv_unAssign _ _ _ _ h1
+    · split
+      · exact cinv_assign _ _ _ _ _ h1
+      · exact h1
+
+theorem cinv_step (cfg : Cfg) (c : Cache) (e : Ev) (hc : CInv cfg c) : CInv cfg (step cfg c e) := by
+  cases e with
+  | reserve node p now => exact cinv_assign _ _ _ _ _ hc
+  | unreserve node uid => exact cinv_unAssign _ _ _ _ hc
+  | add p now => exact cinv_assign _ _ _ _ _ hc
+  | update o p now => exact cinv_onUpdate _ _ _ _ _ hc
+  | delete sn uid => exact cinv_unAssign _ _ _ _ hc
+  | metric node m => exact cinv_set _ _ _ _ hc (inv_setMetric _ _ _)
+  | delMetric node => exact cinv_set _ _ _ _ hc (inv_deleteMetric _ _)
+
+theorem cinv_run (cfg : Cfg) (evs : List Ev) : CInv cfg (run cfg evs) := by
+  unfold run
+  have : ∀ c, CInv cfg c → CInv cfg (evs.foldl (step cfg) c) := by
+    induction evs with
+    | nil => intro c h; exact h
+    | cons e es ih => intro c h; exact ih _ (cinv_step _ _ _ h)
+  apply this
+  intro k m h
+  simp [Cache.get, emptyNode] at h
+
+/-- **cache = rebuild.** After ANY sequence of reserve / unreserve / pod add / update / delete /
+node-metric add-or-update / delete events, on every node that has a report in force the cached sums
+equal the from-scratch computation over that report and the pods currently assigned to the node. -/
+theorem cache_eq_rebuild (cfg : Cfg) (evs : List Ev) (k : Nat) (m : Metric)
+    (hm : ((run cfg evs).get k).metric = some m) :
+    ((run cfg evs).get k).sums = scratch cfg m ((run cfg evs).get k).updateTime ((run cfg evs).get k).pods :=
+  (cinv_run cfg evs k m hm).1
+
+/-- … and when the report carries an UpdateTime nothing but the report and the pods enters. -/
+theorem cache_eq_from_report (cfg : Cfg) (evs : List Ev) (k : Nat) (m : Metric)
+    (hm : ((run cfg evs).get k).metric = some m) (hu : m.hasUpd = true) :
+    ((run cfg evs).get k).sums = scratch cfg m (some m.updT) ((run cfg evs).get k).pods := by
+  have h := cinv_run cfg evs k m hm
+  rw [← h.2 hu]; exact h.1
+
+/-
+FULL STATEMENT (not provable on the code as written):
+  ∀ cfg evs k m, ((run cfg evs).get k).metric = some m →
+    ((run cfg evs).get k).sums = scratch cfg m (if m.hasUpd then some m.updT else none) ((run cfg evs).get k).pods
+i.e. the estimate is a function of the current report and the assigned pods only.  It fails for a
+report without Status.UpdateTime that follows one with it: AddOrUpdateNodeMetric keeps the old
+`updateTime`.  Proved part: `cache_eq_from_report` (reports with UpdateTime) and `cache_eq_rebuild`
+(relative to the node's kept updateTime); the witness of the gap follows.
+-/
+
+def exactFloat : FloatOps :=
+  { scale := fun q f => (q * f + 50) / 100, roundPct := fun e a => (200 * e + a) / (2 * a) }
+
+def cfgW : Cfg :=
+  { d := 1, factors := [some 100], allowCustom := false, secSched := -1, secInit := -1, prodIncludeSys := false, fl := exactFloat }
+
+def podW : PodDesc :=
+  { uid := 1, key := 1, cls := 3, prioVariant := 0, term := false, rsv := false, specNode := 1,
+    sched := some ⟨true, some 0⟩, init := none, customFactors := [], customSched := -1, customInit := -1, res := [(5280, 0)] }
+
+def reportA : Metric :=
+  { hasUpd := true, updT := 100, interval := 60, hasInfo := true, nodeUsage := [24], sysUsage := [0], aggs := [], pods := [] }
+
+/-- no UpdateTime; reports 3050 for the pod. -/
+def reportB : Metric :=
+  { reportA with hasUpd := false, updT := 0, pods := [⟨1, false, 0, [3050]⟩] }
+
+theorem report_without_update_time_counterexample :
+    let n := (run cfgW [Ev.metric 1 reportA, Ev.metric 1 reportB, Ev.add podW 0]).get 1
+    n.metric = some reportB ∧ n.sums.nodeDelta = [0] ∧ (scratch cfgW reportB none n.pods).nodeDelta = [2230] := by
+  decide
+
+/-! ### 3. Filter -/
+
+/-- per thresholded resource: `P threshold estimate allocatable`; resources with threshold 0 or
+allocatable 0 are not checked. -/
+def Within (P : Int → Int → Int → Prop) : Vec → Vec → Vec → Prop
+  | t :: ts, e :: es, a :: as => (t = 0 ∨ a = 0 ∨ P t e a) ∧ Within P ts es as
+  | _, _, _ => True
+
+theorem Within.mono {P Q : Int → Int → Int → Prop} (h : ∀ t e a, P t e a → Q t e a) :
+    ∀ (ts es as : Vec), Within P ts es as → Within Q ts es as
+  | [], _, _, _ => by simp [Within]
+  | _ :: _, [], _, _ => by simp [Within]
+  | _ :: _, _ :: _, [], _ => by simp [Within]
+  | t :: ts, e :: es, a :: as, hw => by
+    simp only [Within] at hw ⊢
+    refine ⟨?_, Within.mono h ts es as hw.2⟩
+    rcases hw.1 with h1 | h1 | h1
+    · exact Or.inl h1
+    · exact Or.inr (Or.inl h1)
+    · exact Or.inr (Or.inr (h _ _ _ h1))
+
+/-- filterNodeUsage passes iff every thresholded resource's rounded percentage is at most its threshold. -/
+theorem exceeds_false_iff (fl : FloatOps) : ∀ (ts es as : Vec),
+    exceeds fl ts es as = false ↔ Within (fun t e a => fl.roundPct e a ≤ t) ts es as
+  | [], _, _ => by simp [exceeds, Within]
+  | _ :: _, [], _ => by simp [exceeds, Within]
+  | _ :: _, _ :: _, [] => by simp [exceeds, Within]
+  | t :: ts, e :: es, a :: as => by
+    simp only [exceeds, Within, Bool.or_eq_false_iff, exceeds_false_iff fl ts es as]
+    constructor
+    · rintro ⟨h1, h2⟩
+      refine ⟨?_, h2⟩
+      by_cases ht : t = 0
+      · exact Or.inl ht
+      · by_cases ha : a = 0
+        · exact Or.inr (Or.inl ha)
+        · right; right
+          simp [ht, ha] at h1
+          omega
+    · rintro ⟨h1, h2⟩
+      refine ⟨?_, h2⟩
+      by_cases ht : t = 0
+      · simp [ht]
+      · by_cases ha : a = 0
+        · simp [ha]
+        · rcases h1 with h | h | h
+          · exact absurd h ht
+          · exact absurd h ha
+          · simp [ht, ha]; omega
+
+/-- the float64 `round(est/total*100)`: between round-half-down and round-half-up of the exact quotient
+(tested on every generated input by the harness; at exact .5 ties float64 may fall either way). -/
+structure RoundOK (f : Int → Int → Int) : Prop where
+  lo : ∀ e a, 0 < a → 0 ≤ e → 200 * e - a ≤ 2 * a * f e a
+  hi : ∀ e a, 0 < a → 0 ≤ e → 2 * a * f e a ≤ 200 * e + a
+
+/-- what the filter decides with, as a function of the cache (mirrors the `let`s of `filter`). -/
+def selProfile (cfg : Cfg) (q : FilterQ) : Bool × Vec × Option AggProfile :=
+  let prof := nodeProfile cfg.d (argsProfile cfg.d q.args) q.customKind q.custom
+  let prodPod := !vEmpty prof.prod && q.pod.cls == 1
+  if prodPod then (true, prof.prod, none) else
+    match prof.agg with
+    | some a => (false, a.thr, some a)
+    | none => (false, prof.usage, none)
+
+def selTyp (s : Option AggProfile) : Nat := match s with | some a => a.typ | none => 0
+def selDur (s : Option AggProfile) : Nat := match s with | some a => a.dur | none => 0
+
+/-- the expiry switch is engaged for this query and report. -/
+def expirySkip (q : FilterQ) (m : Metric) : Bool :=
+  q.filterExpired == 1 && q.hasExp && metricExpired m q.expSec
+
+theorem filter_unfold (cfg : Cfg) (c : Cache) (q : FilterQ) (hn : q.hasNode = true) (hd : q.daemon = false)
+    (ht : vEmpty (selProfile cfg q).2.1 = false) :
+    filter cfg c q =
+      match estimatedOfExisting cfg (c.get q.node) (selProfile cfg q).1 (selTyp (selProfile cfg q).2.2) (selDur (selProfile cfg q).2.2) with
+      | none => 0
+      | some (m, est) =>
+        if expirySkip q m then (if q.enableWhenExpired == 0 then 3 else 0)
+        else if !m.hasInfo then 0
+        else if exceeds cfg.fl (selProfile cfg q).2.1 (vadd est (estimateVec cfg q.pod)) (allocOf q)
+          then (if (selProfile cfg q).2.2.isSome then 2 else 1) else 0 := by
+  unfold filter selProfile expirySkip selTyp selDur at *
+  simp only [hn, hd, Bool.not_true, Bool.false_eq_true, if_false]
+  split at ht <;> rename_i hp
+  · simp only [hp, if_true] at ht ⊢
+    simp only [ht, Bool.false_eq_true, if_false]
+    rfl
+  · simp only [hp, Bool.false_eq_true, if_false] at ht ⊢
+    split at ht <;> rename_i ha
+    · simp only [ha] at ht ⊢
+      simp only [ht, Bool.false_eq_true, if_false]
+      rfl
+    · simp only [ha] at ht ⊢
+      simp only [ht, Bool.false_eq_true, if_false]
+      rfl
+
+theorem filter_daemonset (cfg : Cfg) (c : Cache) (q : FilterQ) (hn : q.hasNode = true) (hd : q.daemon = true) :
+    filter cfg c q = 0 := by
+  simp [filter, hn, hd]
+
+theorem filter_no_thresholds (cfg : Cfg) (c : Cache) (q : FilterQ) (hn : q.hasNode = true)
+    (ht : vEmpty (selProfile cfg q).2.1 = true) : filter cfg c q = 0 := by
+  unfold filter selProfile at *
+  simp only [hn, Bool.not_true, Bool.false_eq_true, if_false]
+  split
+  · rfl
+  · split at ht <;> rename_i hp
+    · simp only [hp, if_true] at ht ⊢; simp [ht]
+    · simp only [hp, Bool.false_eq_true, if_false] at ht ⊢
+      split at ht <;> rename_i ha <;> simp only [ha] at ht ⊢ <;> simp [ht]
+
+/-! ### 4. missing / expired reports: the configured switch table -/
+
+/-- a node without a report is skipped (passes). -/
+theorem filter_no_metric (cfg : Cfg) (c : Cache) (q : FilterQ) (hn : q.hasNode = true)
+    (hm : (c.get q.node).metric = none) : filter cfg c q = 0 := by
+  by_cases hd : q.daemon = true
+  · exact filter_daemonset cfg c q hn hd
+  · by_cases ht : vEmpty (selProfile cfg q).2.1 = true
+    · exact filter_no_thresholds cfg c q hn ht
+    · rw [filter_unfold cfg c q hn (by simpa using hd) (by simpa using ht)]
+      simp [estimatedOfExisting, hm]
+
+/-- with thresholds configured and expiry filtering engaged, an expired (or time-less) report yields
+"rejected: metric expired" exactly when EnableScheduleWhenNodeMetricsExpired is false, else the node is skipped. -/
+theorem filter_expired_table (cfg : Cfg) (c : Cache) (q : FilterQ) (m : Metric)
+    (hn : q.hasNode = true) (hd : q.daemon = false) (ht : vEmpty (selProfile cfg q).2.1 = false)
+    (hm : (c.get q.node).metric = some m) (hx : expirySkip q m = true) :
+    filter cfg c q = if q.enableWhenExpired == 0 then 3 else 0 := by
+  rw [filter_unfold cfg c q hn hd ht]
+  unfold estimatedOfExisting
+  simp only [hm]
+  split <;> (try split) <;> simp [hx]
+
+/-- "rejected: metric expired" is returned only under exactly those settings. -/
+theorem filter_expired_only_if (cfg : Cfg) (c : Cache) (q : FilterQ) (h : filter cfg c q = 3) :
+    ∃ m, (c.get q.node).metric = some m ∧ expirySkip q m = true ∧ q.enableWhenExpired = 0 := by
+  by_cases hn : q.hasNode = true
+  case neg => simp [filter, hn] at h
+  by_cases hd : q.daemon = true
+  · rw [filter_daemonset cfg c q hn hd] at h; cases h
+  by_cases ht : vEmpty (selProfile cfg q).2.1 = true
+  · rw [filter_no_thresholds cfg c q hn ht] at h; cases h
+  rw [filter_unfold cfg c q hn (by simpa using hd) (by simpa using ht)] at h
+  cases hm : (c.get q.node).metric with
+  | none => simp [estimatedOfExisting, hm] at h
+  | some m =>
+    refine ⟨m, rfl, ?_⟩
+    unfold estimatedOfExisting at h
+    simp only [hm] at h
+    have key : ∀ est : Vec,
+        (if expirySkip q m then (if q.enableWhenExpired == 0 then 3 else 0)
+         else if !m.hasInfo then 0
+         else if exceeds cfg.fl (selProfile cfg q).2.1 (vadd est (estimateVec cfg q.pod)) (allocOf q)
+           then (if (selProfile cfg q).2.2.isSome then 2 else 1) else 0) = 3 →
+        expirySkip q m = true ∧ q.enableWhenExpired = 0 := by
+      intro est hh
+      by_cases hx : expirySkip q m = true
+      · simp only [hx, if_true] at hh
+        by_cases he : q.enableWhenExpired = 0
+        · exact ⟨rfl, he⟩
+        · simp [he] at hh
+      · simp only [hx, Bool.false_eq_true, if_false] at hh
+        split at hh
+        · cases hh
+        · split at hh
+          · split at hh <;> cases hh
+          · cases hh
+    split at h
+    · exact key _ h
+    · split at h <;> exact key _ h
+
+/-- **pass ⇒ within threshold.** If a non-daemon-set pod passes on a node that has a report with node
+usage in force, thresholds configured and the expiry switch not engaged, then for every thresholded
+resource with non-zero allocatable the rounded percentage of (estimate of existing + incoming pod's
+estimate) is at most the threshold. -/
+theorem filter_pass_within (cfg : Cfg) (c : Cache) (q : FilterQ) (m : Metric) (est : Vec)
+    (hn : q.hasNode = true) (hd : q.daemon = false) (ht : vEmpty (selProfile cfg q).2.1 = false)
+    (he : estimatedOfExisting cfg (c.get q.node) (selProfile cfg q).1 (selTyp (selProfile cfg q).2.2) (selDur (selProfile cfg q).2.2) = some (m, est))
+    (hx : expirySkip q m = false) (hi : m.hasInfo = true)
+    (hpass : filter cfg c q = 0) :
+    Within (fun t e a => cfg.fl.roundPct e a ≤ t) (selProfile cfg q).2.1 (vadd est (estimateVec cfg q.pod)) (allocOf q) := by
+  rw [filter_unfold cfg c q hn hd ht, he] at hpass
+  simp only [hx, hi, Bool.false_eq_true, if_false, Bool.not_true] at hpass
+  apply (exceeds_false_iff _ _ _ _).mp
+  by_cases hex : exceeds cfg.fl (selProfile cfg q).2.1 (vadd est (estimateVec cfg q.pod)) (allocOf q) = true
+  · simp only [hex, if_true] at hpass
+    split at hpass <;> cases hpass
+  · simpa using hex
+
+/-- … and conversely the pod is rejected for usage only if some thresholded resource is above. -/
+theorem filter_reject_only_if_exceeds (cfg : Cfg) (c : Cache) (q : FilterQ)
+    (h : filter cfg c q = 1 ∨ filter cfg c q = 2) :
+    ∃ m est, estimatedOfExisting cfg (c.get q.node) (selProfile cfg q).1 (selTyp (selProfile cfg q).2.2) (selDur (selProfile cfg q).2.2) = some (m, est) ∧
+      ¬ Within (fun t e a => cfg.fl.roundPct e a ≤ t) (selProfile cfg q).2.1 (vadd est (estimateVec cfg q.pod)) (allocOf q) := by
+  by_cases hn : q.hasNode = true
+  case neg => simp [filter, hn] at h
+  by_cases hd : q.daemon = true
+  · rw [filter_daemonset cfg c q hn hd] at h; omega
+  by_cases ht : vEmpty (selProfile cfg q).2.1 = true
+  · rw [filter_no_thresholds cfg c q hn ht] at h; omega
+  rw [filter_unfold cfg c q hn (by simpa using hd) (by simpa using ht)] at h
+  cases he : estimatedOfExisting cfg (c.get q.node) (selProfile cfg q).1 (selTyp (selProfile cfg q).2.2) (selDur (selProfile cfg q).2.2) with
+  | none => simp [he] at h
+  | some me =>
+    obtain ⟨m, est⟩ := me
+    refine ⟨m, est, rfl, ?_⟩
+    simp only [he] at h
+    intro hw
+    have hex := (exceeds_false_iff _ _ _ _).mpr hw
+    simp only [hex, Bool.false_eq_true, if_false] at h
+    split at h
+    · split at h <;> omega
+    · split at h <;> omega
+
+/-- the exact-integer reading of the rounded comparison ("rounding at the boundary"): passing means
+`200·est ≤ (2·thr+1)·alloc`, i.e. est/alloc ≤ thr% + 0.5 point — never more. -/
+theorem filter_pass_exact (f : Int → Int → Int) (hf : RoundOK f) (ts es as : Vec)
+    (h : Within (fun t e a => f e a ≤ t) ts es as) :
+    Within (fun t e a => 0 < a → 0 ≤ e → 200 * e ≤ (2 * t + 1) * a) ts es as := by
+  refine Within.mono ?_ ts es as h
+  intro t e a hle ha he
+  have h1 := hf.lo e a ha he
+  have h2 : 2 * a * f e a ≤ 2 * a * t := Int.mul_le_mul_of_nonneg_left hle (by omega)
+  have h3 : (2 * t + 1) * a = 2 * a * t + a := by
+    rw [Int.add_mul, Int.one_mul, Int.mul_assoc, Int.mul_comm t a, ← Int.mul_assoc]
+  omega
+
+/-- and a resource strictly below `thr% + 0.5 point` is never the reason for a rejection. -/
+theorem below_boundary_within (f : Int → Int → Int) (hf : RoundOK f) (t e a : Int) (ha : 0 < a) (he : 0 ≤ e)
+    (h : 200 * e < (2 * t + 1) * a) : f e a ≤ t := by
+  have h2 := hf.hi e a ha he
+  have h3 : (2 * t + 1) * a = 2 * a * t + a := by
+    rw [Int.add_mul, Int.one_mul, Int.mul_assoc, Int.mul_comm t a, ← Int.mul_assoc]
+  have h4 : 2 * a * f e a < 2 * a * (t + 1) := by
+    have : 2 * a * (t + 1) = 2 * a * t + 2 * a := by rw [Int.mul_add, Int.mul_one]
+    omega
+  have h5 : f e a < t + 1 := Int.lt_of_mul_lt_mul_left h4 (by omega)
+  omega
+
+/-- **end to end.** For ANY history, a pass on the reached cache means: within the rounded threshold on
+the FROM-SCRATCH estimate (report's usage + Σ contributions of the assigned pods + incoming estimate). -/
+theorem filter_pass_sound (cfg : Cfg) (evs : List Ev) (q : FilterQ) (m : Metric)
+    (hn : q.hasNode = true) (hd : q.daemon = false) (ht : vEmpty (selProfile cfg q).2.1 = false)
+    (hm : ((run cfg evs).get q.node).metric = some m)
+    (hx : expirySkip q m = false) (hi : m.hasInfo = true)
+    (hpass : filter cfg (run cfg evs) q = 0) :
+    ∃ est, estimatedOfExisting cfg
+        { (run cfg evs).get q.node with
+          sums := scratch cfg m ((run cfg evs).get q.node).updateTime ((run cfg evs).get q.node).pods }
+        (selProfile cfg q).1 (selTyp (selProfile cfg q).2.2) (selDur (selProfile cfg q).2.2) = some (m, est) ∧
+      Within (fun t e a => cfg.fl.roundPct e a ≤ t) (selProfile cfg q).2.1 (vadd est (estimateVec cfg q.pod)) (allocOf q) := by
+  have hs := cache_eq_rebuild cfg evs q.node m hm
+  have hnode : ({ (run cfg evs).get q.node with
+      sums := scratch cfg m ((run cfg evs).get q.node).updateTime ((run cfg evs).get q.node).pods } : Node)
+      = (run cfg evs).get q.node := by
+    rw [← hs]
+  rw [hnode]
+  cases he : estimatedOfExisting cfg ((run cfg evs).get q.node) (selProfile cfg q).1 (selTyp (selProfile cfg q).2.2) (selDur (selProfile cfg q).2.2) with
+  | none => simp [estimatedOfExisting, hm] at he
+  | some me =>
+    obtain ⟨m', est⟩ := me
+    have hmm : m' = m := by
+      unfold estimatedOfExisting at he
+      simp only [hm] at he
+      split at he
+      · simp at he; exact he.1.symm
+      · split at he <;> (simp at he; exact he.1.symm)
+    subst hmm
+    exact ⟨est, rfl, filter_pass_within cfg _ q m' est hn hd ht he hx hi hpass⟩
+
+/-! ### non-vacuity -/
+
+example : RoundOK exactFloat.roundPct := by
+  refine ⟨?_, ?_⟩ <;> intro e a ha he <;> simp only [exactFloat]
+  · have := Int.lt_ediv_add_one_mul_self (200 * e + a) (show 0 < 2 * a by omega)
+    have h3 : ((200 * e + a) / (2 * a) + 1) * (2 * a) = 2 * a * ((200 * e + a) / (2 * a)) + 2 * a := by
+      rw [Int.add_mul, Int.one_mul, Int.mul_comm]
+    omega
+  · have := Int.ediv_mul_le (200 * e + a) (show 2 * a ≠ 0 by omega)
+    rw [Int.mul_comm] at this; exact this
+
+/-- a pod whose usage is reported, scheduled long before the report: contributes usage-delta 0 once
+the deadline passed, and its full estimate always. -/
+example : (scratch cfgW reportA (some 100)
+    [{ desc := podW, est := some [5280], ts := 0, deadline := none }]).nodeEst = [5280] := by decide
+
+example : filter cfgW (run cfgW [Ev.metric 1 reportA, Ev.add podW 90])
+    { node := 1, hasNode := true, daemon := false, args := ⟨[some 50], [], none⟩, customKind := 0, custom := ⟨[], [], none⟩,
+      filterExpired := 0, hasExp := false, expSec := 0, enableWhenExpired := -1, alloc := [20000], rawKind := 0, raw := [],
+      pod := podW } = 1 := by decide
+
+example : filter cfgW (run cfgW [Ev.metric 1 reportA, Ev.add podW 90])
+    { node := 1, hasNode := true, daemon := false, args := ⟨[some 50], [], none⟩, customKind := 0, custom := ⟨[], [], none⟩,
+      filterExpired := 0, hasExp := false, expSec := 0, enableWhenExpired := -1, alloc := [21000], rawKind := 0, raw := [],
+      pod := podW } = 0 := by decide
+
 end KoordVerif.C08
